@@ -462,7 +462,44 @@ func Gen(t *rapid.T, o Options) *Layout {
 		if len(extra) > 0 && m.nsub >= 2 && rapid.IntRange(0, 2).Draw(t, "reqchain") == 0 && !o.Exclude["requires-chain"] {
 			base := extra[0]
 			o2 := owner("reqchainown")
-			if o2 != base.owners[0] {
+			// subgraph-level @requires edges of this entity (owner of the computed field ->
+			// owner of what it requires): when the chain closes a cycle between subgraphs
+			// (s0 needs s1 needs s2 needs s0, each for another field) the planner folds the
+			// fields of one subgraph into one fetch, the fetch dependencies become cyclic and
+			// post-processing overflows the stack (finding C01-requires-cycle-between-subgraphs)
+			edges := map[int][]int{}
+			for _, x := range extra {
+				for _, rn := range strings.Fields(x.requires) {
+					for _, g := range e.fields {
+						if g.name == rn && len(g.owners) > 0 {
+							edges[x.owners[0]] = append(edges[x.owners[0]], g.owners[0])
+						}
+					}
+				}
+			}
+			edges[o2] = append(edges[o2], base.owners[0])
+			var reach func(from, to int, seen map[int]bool) bool
+			reach = func(from, to int, seen map[int]bool) bool {
+				if from == to {
+					return true
+				}
+				if seen[from] {
+					return false
+				}
+				seen[from] = true
+				for _, n := range edges[from] {
+					if reach(n, to, seen) {
+						return true
+					}
+				}
+				return false
+			}
+			cyclic := reach(base.owners[0], o2, map[int]bool{})
+			switch {
+			case o2 == base.owners[0]:
+			case cyclic && !o.Allow["requires-cycle-between-subgraphs"]:
+				m.feat["excluded:requires-cycle-between-subgraphs"] = true
+			default:
 				extra = append(extra, &field{name: "chain_" + base.requires, typ: "String", named: "String", owners: []int{o2}, requires: base.name, provides: map[int]string{}})
 				m.feat["requires-chain"] = true
 			}
